@@ -99,6 +99,9 @@ def consumers(ptype, v, nm, style, rich):
             el2 = f"{k2}.{attr}" if attr else k2
             el3 = f"{k3}.{attr}" if attr else k3
             out.append(("Select", "N", f"Select({s}, lambda {k}: {el} + {n})"))
+            k4 = nm.fresh("k")
+            el4 = f"{k4}.{attr}" if attr else k4
+            out.append(("Select", "N", f"Select({s}, lambda {k4}: kwfn({el4}, ref={n}))"))
             out.append(("Select", t, f"Where({s}, lambda {k2}: {el2} > {n})"))
             out.append(("SelectMany", "I", f"Select({s}, lambda {k3}: {el3} + {n})"))
     # re-packaging: swap the first two leaves into a new package (a result package, or input of stage 3)
@@ -138,6 +141,7 @@ def chains(rich=False, nested=True, three=True):
 
     # ---------------- stage 1 producers over the event stream
     producers = []  # (item type, source of the chain so far)
+    extra_chains = []  # complete chains written out in full
     nm = Names()
     e = "e"
     kinds = ("tup", "lst", "dic", "idic")
@@ -158,6 +162,17 @@ def chains(rich=False, nested=True, three=True):
                 producers.append((pt, f"Select(ds, lambda {e}: {src})"))
                 pt, src = build_pkg(ko, [(ipt, isrc), a])
                 producers.append((pt, f"Select(ds, lambda {e}: {src})"))
+        # a field that is itself First(<sequence of packages>): a two-step projection first meets the written-out outer
+        # package and then the packaged First
+        for ko, ki in (itertools.product(("tup", "dic"), ("tup", "dic", "lst")) if rich else (("tup", "dic"), ("dic", "tup"))):
+            jf = nm.fresh("j")
+            ipt, ipkg = build_pkg(ki, [("I", f"{jf}.pt"), ("I", f"{jf}.eta")])
+            isrc = f"First(Select({e}.jets, lambda {jf}: {ipkg}))"
+            for a in F2[:1]:
+                pt, src = build_pkg(ko, [(ipt, isrc), a])
+                producers.append((pt, f"Select(ds, lambda {e}: {src})"))
+                pt, src = build_pkg(ko, [a, (ipt, isrc)])
+                producers.append((pt, f"Select(ds, lambda {e}: {src})"))
     # SelectMany producer: flatten jets paired with an event-level value
     for kind in kinds:
         j = nm.fresh("j")
@@ -172,6 +187,20 @@ def chains(rich=False, nested=True, three=True):
         pt, src = build_pkg(kind, [("I", f"{t4}.q"), ("I", f"{j4}.pt")])
         producers.append((pt, f"SelectMany(SelectMany(ds, lambda {e}: {e}.jets), lambda {j4}: Select({j4}.tr, lambda {t4}: {src}))"))
 
+    # three SelectMany stages in a row: the middle one packages per item, the last one (the end of the query) unpacks
+    for kind in ("tup", "dic", "lst"):
+        j7, t7, j8 = nm.fresh("j"), nm.fresh("t"), nm.fresh("j")
+        p7, q7 = nm.fresh("p"), nm.fresh("q")
+        pt1, src1 = build_pkg(kind, [("Jet", j7), ("Ev", e)])
+        pr1 = projections(pt1, p7, 0)
+        pt2, src2 = build_pkg(kind, [("Trk", t7), ("Ev", pr1[1][1]), ("Jet", pr1[0][1])])
+        pr2 = projections(pt2, q7, 0)
+        three = (f"SelectMany(SelectMany(SelectMany(ds, lambda {e}: Select({e}.jets, lambda {j7}: {src1})), "
+                 f"lambda {p7}: Select({pr1[0][1]}.tr, lambda {t7}: {src2})), "
+                 f"lambda {q7}: Select({pr2[1][1]}.jets, lambda {j8}: {pr2[0][1]}.q + {j8}.pt + {pr2[2][1]}.pt))")
+        extra_chains.append(three)
+        u7 = nm.fresh("u")
+        extra_chains.append(f"Select({three}, lambda {u7}: {u7} + 1)")
     # a stage whose result is First(<sequence of packages>): the later stage's projection has to be moved past
     # the First (subscript and attribute spelling) before the package can be compiled away
     for kind in kinds:
@@ -186,6 +215,9 @@ def chains(rich=False, nested=True, three=True):
         pt, src = build_pkg(kind, [("I", f"{t6}.q"), ("I", f"{j6}.pt")])
         producers.append((pt, f"Select(ds, lambda {e}: First(SelectMany({e}.jets, lambda {j6}: Select({j6}.tr, lambda {t6}: {src}))))"))
 
+    for s_ in extra_chains:
+        if emit(s_):
+            yield s_
     for pt, psrc in producers:
         for style in ((0, 1) if _has_dict(pt) else (0,)):
             t = nm.fresh("t")
